@@ -172,7 +172,7 @@ Proof.
 Qed.
 
 (* ---- ends_with_colon on  l ++ ":" ---- *)
-Lemma length_app_str a b : String.length (a ++ b) = String.length a + String.length b.
+Lemma length_app_str a b : String.length (a ++ b) = (String.length a + String.length b)%nat.
 Proof. induction a as [|c a IH]; cbn; [reflexivity|]. now rewrite IH. Qed.
 
 Lemma substring_all : forall s, substring 0 (String.length s) s = s.
@@ -191,8 +191,8 @@ Proof. induction a as [|c a IH]; intros b n; cbn; [reflexivity|]. apply IH. Qed.
 Lemma ends_with_colon_app : forall l, l <> "" -> ends_with_colon (l ++ ":") = Some l.
 Proof.
   intros l Hne. unfold ends_with_colon. rewrite length_app_str. cbn [String.length].
-  replace (String.length l + 1 - 1) with (String.length l) by lia.
-  assert (L : (1 <? String.length l + 1) = true).
+  replace (String.length l + 1 - 1)%nat with (String.length l) by lia.
+  assert (L : (1 <? String.length l + 1)%nat = true).
   { apply Nat.ltb_lt. destruct l; [congruence|cbn; lia]. }
   rewrite L, substring_skip. cbn. rewrite substring_prefix. reflexivity.
 Qed.
@@ -264,11 +264,10 @@ Proof.
   intros msel name lbl Hn Hne Hl.
   unfold statements_of_text, header_text.
   rewrite !los_app.
-  change (list_ascii_of_string nl) with ([] ++ [newline])%list.
-  rewrite <- !app_assoc. cbn [app].
-  rewrite (split_lines_app_nl [] _ []) by constructor.
+  change (list_ascii_of_string nl) with [newline].
   change (list_ascii_of_string "// ") with ["/"%char; "/"%char; " "%char].
   cbn [app].
+  change (split_lines (newline :: ?x) []) with (str_of [] :: split_lines x []).
   rewrite (app_comm_cons (list_ascii_of_string name)), (app_comm_cons (_ :: list_ascii_of_string name)),
           (app_comm_cons (_ :: _ :: list_ascii_of_string name)).
   rewrite split_lines_app_nl.
@@ -276,14 +275,14 @@ Proof.
   rewrite split_lines_no_nl.
   2:{ apply Forall_app. split; [apply forallb_label_no_nl; exact Hl|].
       constructor; [intros X; vm_compute in X; discriminate|constructor]. }
+  change (str_of []) with "".
   rewrite !str_of_rev.
   cbn [flat_map].
-  change (string_of_list_ascii []) with "".
   change (tokens_of_line "") with (@nil string).
   change (string_of_list_ascii ("/"%char :: "/"%char :: " "%char :: list_ascii_of_string name))
     with ("//" ++ String " " (string_of_list_ascii (list_ascii_of_string name))).
   rewrite tokens_comment_line.
-  rewrite sol_app, sol_los. change (string_of_list_ascii [":"%char]) with ":".
+  rewrite sol_app, sol_los. change (string_of_list_ascii (list_ascii_of_string ":")) with ":".
   destruct (label_line_statement msel lbl Hne Hl) as [T P].
   rewrite T. cbn [split_semis app rev String.eqb Ascii.eqb].
   assert (Hsemi : String.eqb (lbl ++ ":") ";" = false).
@@ -319,7 +318,8 @@ Fixpoint join_nl (ls : list string) : string :=
   | x :: t => x ++ nl ++ join_nl t
   end.
 
-Definition is_comment_line (ln : string) : bool := String.prefix "//" ln.
+Definition is_comment_line (ln : string) : bool :=
+  match ln with String a (String b _) => Ascii.eqb a "/" && Ascii.eqb b "/" | _ => false end.
 
 Lemma split_lines_join : forall ls, ls <> [] ->
   Forall (fun ln => no_nl (list_ascii_of_string ln)) ls ->
@@ -338,10 +338,9 @@ Qed.
 Lemma comment_line_tokens : forall ln, is_comment_line ln = true -> tokens_of_line ln = [].
 Proof.
   intros ln H. unfold is_comment_line in H.
-  destruct ln as [|a [|b r]]; cbn in H; try discriminate.
-  destruct (Ascii.eqb_spec a "/") as [->|]; [|destruct a as [[] [] [] [] [] [] [] []]; discriminate].
-  destruct (Ascii.eqb_spec b "/") as [->|]; [|destruct b as [[] [] [] [] [] [] [] []]; discriminate].
-  reflexivity.
+  destruct ln as [|a [|b r]]; try discriminate.
+  apply andb_prop in H. destruct H as [Ha Hb].
+  apply Ascii.eqb_eq in Ha. apply Ascii.eqb_eq in Hb. subst. reflexivity.
 Qed.
 
 Lemma parse_stmts_drop_comments : forall msel ls,
@@ -353,7 +352,7 @@ Proof.
   cbn [flat_map filter]. destruct (is_comment_line x) eqn:E; cbn [negb].
   - rewrite (comment_line_tokens x E). cbn [split_semis rev app parse_stmts].
     change (parse_stmt msel []) with (@Some (option stmt) None). rewrite IH.
-    destruct (parse_stmts msel _); reflexivity.
+    match goal with |- match ?p with _ => _ end = _ => destruct p; reflexivity end.
   - cbn [flat_map].
     generalize (split_semis (tokens_of_line x) []) as ss. intros ss.
     induction ss as [|s ss IHs]; [exact IH|].
